@@ -186,7 +186,8 @@ pub enum Counter {
     Flt { text: String, m: u64, e: i32 },
 }
 impl Counter {
-    /// what the counter means as a u64: truncated, saturated at 2^64-1
+    /// what the counter means as a u64: truncated toward zero (a well-formed float counter is below
+    /// 2^64, so the final `min` never cuts anything)
     pub fn value(&self) -> u64 {
         match self {
             Counter::Int(n) => *n,
@@ -303,9 +304,9 @@ pub fn gen_float(rng: &mut Rng) -> Counter {
         }
         7 => {
             if rng.chance(1, 3) {
-                // exactly 2^64, the largest accepted float: saturates to 2^64-1 (both rounding steps
-                // of serde_json's reader are exact for this literal; `reads_back` re-checks it)
-                Counter::Flt { text: "1.8446744073709552e19".to_string(), m: 1, e: 64 }
+                // the largest f64 below 2^64, (2^53-1)·2^11 = 18446744073709549568: the largest accepted
+                // float (2^64 itself is rejected since /repo 5cfb47a); `reads_back` re-checks the literal
+                Counter::Flt { text: "1.844674407370955e19".to_string(), m: (1 << 53) - 1, e: 11 }
             } else {
                 Counter::Flt { text: rng.pick(&["0.0", "0e0", "0.000", "0E5"]).to_string(), m: 0, e: 0 }
             }
@@ -571,7 +572,7 @@ pub fn features(d: &JDoc) -> Vec<&'static str> {
         Counter::Int(n) if *n >= 1 << 53 => f.push("counter.int_ge_2^53"),
         Counter::Int(_) => f.push("counter.int"),
         Counter::Flt { m: 0, .. } => f.push("counter.float_zero"),
-        Counter::Flt { e: 64, .. } => f.push("counter.float_2^64_saturating"),
+        Counter::Flt { e: 11, .. } => f.push("counter.float_largest_below_2^64"),
         Counter::Flt { e, .. } if *e < 0 => f.push("counter.float_fraction"),
         Counter::Flt { .. } => f.push("counter.float_integral"),
     };
